@@ -132,6 +132,10 @@ class Sym:
             return Sym("ite", *[Sym.lift(a) for a in args])
         if name == "full_like":
             return Sym.lift(args[1] if len(args) > 1 else kwargs["fill_value"])
+        if name == "nan_to_num":
+            v = args[0]
+            return Sym("nan_to_num", Sym.lift(v), Sym.lift(kwargs.get("nan", 0.0)), Sym.lift(kwargs.get("neginf", -1.7976931348623157e308)),
+                       Sym.lift(kwargs.get("posinf", 1.7976931348623157e308)))
         if name == "clip":
             x, lo, hi = (list(args) + [kwargs.get("a_min"), kwargs.get("a_max")])[:3]
             return Sym("npmin", Sym("npmax", Sym.lift(x), Sym.lift(lo)), Sym.lift(hi))
@@ -219,6 +223,7 @@ class Emit:
             s.usesF = True
             return f"(X.{o} F {s.F(a[0])})"
         if o == "ite": return f"(X.sel {s.B(a[0])} {s.F(a[1])} {s.F(a[2])})"
+        if o == "nan_to_num": return f"(X.nanToNum {s.F(a[0])} {s.F(a[1])} {s.F(a[2])} {s.F(a[3])})"
         raise Untraceable("cannot emit " + o)
 
     def B(s, e):
@@ -381,6 +386,31 @@ def gen_terms():
     out += ["", "end Gen", ""]
     STATUS["tables"]["term_params"] = sigs
     STATUS["tables"]["monotonic"] = mono
+    return "\n".join(out)
+
+
+def gen_setters():
+    """two property setters every value of the engine passes through: `Activated.degree` and `Variable.value`"""
+    import fuzzylite.variable
+    out = [HEADER.format(module="fuzzylite.term.Activated.degree / fuzzylite.variable.Variable.value")]
+
+    def degree():
+        a = fl.Activated(fl.Constant("c", 0.0), 1.0, None)
+        a.degree = V("d")
+        return a.degree
+
+    def value(lock):
+        def f():
+            v = fl.Variable("v", minimum=0.0, maximum=1.0, lock_range=lock)
+            v.minimum, v.maximum = V("lo"), V("hi")
+            v.value = V("x")
+            return v.value
+        return f
+
+    out.append(trace_fn("Setter.activatedDegree", degree, ["d"], with_F=False))
+    out.append(trace_fn("Setter.valueLocked", value(True), ["lo", "hi", "x"], with_F=False))
+    out.append(trace_fn("Setter.valueUnlocked", value(False), ["lo", "hi", "x"], with_F=False))
+    out += ["", "end Gen", ""]
     return "\n".join(out)
 
 
@@ -720,7 +750,7 @@ def main(outdir, status_path=None):
     install()
     os.makedirs(outdir, exist_ok=True)
     changed = {}
-    for fname, gen in (("NormGen.lean", gen_norms), ("HedgeGen.lean", gen_hedges), ("TermGen.lean", gen_terms),
+    for fname, gen in (("NormGen.lean", gen_norms), ("HedgeGen.lean", gen_hedges), ("TermGen.lean", gen_terms), ("SetterGen.lean", gen_setters),
                        ("Tables.lean", gen_tables), ("ExportTables.lean", gen_export_tables)):
         try:
             text = gen()
